@@ -192,6 +192,10 @@ fn families(thorough: bool) -> Vec<(String, String)> {
         ("only a newline", "\n"),
         ("one line without newline", "start:"),
         ("one instruction without newline", "stc"),
+        ("one-line program with a breakpoint", "start: mov ax, 5 int 3 print reg"),
+        ("one-line program with a divide error", "start: mov bl, 0 div bl"),
+        ("one-line program with an unsupported interrupt", "start: mov ah, 0x77 int 0x21"),
+        ("one-line program with a macro", "macro m(a) -> inc a int 3 <- start: m(ax) print flags"),
         ("no final newline", "start:\nmov ax, 5\nprint reg"),
         ("CRLF line ends", "start:\r\nmov ax, 5\r\nprint reg\r\n"),
         ("CR only", "start:\rmov ax, 5\rprint reg\r"),
